@@ -1,20 +1,21 @@
 """keep_seed.py <Cxx> <k>: verify /tmp/seed/<Cxx>/patch<k>.diff in a scratch worktree and store it as /verif/seeded/<Cxx>-<k>/"""
 import json, os, shutil, subprocess, sys
 pid, k = sys.argv[1], sys.argv[2]
-src = f"/tmp/seed/{pid}"
+src = os.environ.get("SEED_DIR", "/tmp/seed") + f"/{pid}"
+name = f"{pid}-{int(k) + int(os.environ.get('SEED_OFFSET', '0'))}"
 patch = sys.argv[3] if len(sys.argv) > 3 else f"{src}/patch{k}.diff"
 out = subprocess.run(["/verif/tools/verify_seed.sh", patch, f"{src}/demo{k}.py"], capture_output=True, text=True).stdout
 print(out.strip().replace("\n", " | "))
 ok = "demo_without_patch_exit=0" in out and "patch_applies=yes" in out and " passed" in out and "failed" not in out and "demo_with_patch_exit=0" not in out
 if not ok:
     print("NOT KEPT"); sys.exit(1)
-d = f"/verif/seeded/{pid}-{k}"
+d = f"/verif/seeded/{name}"
 os.makedirs(d, exist_ok=True)
 shutil.copy(patch, f"{d}/patch.diff"); shutil.copy(f"{src}/demo{k}.py", f"{d}/demo.py")
 notes = open(f"{src}/notes{k}.md").read() if os.path.exists(f"{src}/notes{k}.md") else ""
 meta = {"property": pid, "origin": "independent sub-agent given only the property text and a scratch worktree",
         "what_it_needs_to_manifest_and_mechanism": notes,
-        "verified": {"cmd": f"tools/verify_seed.sh seeded/{pid}-{k}/patch.diff seeded/{pid}-{k}/demo.py", "output": out.strip().splitlines()},
+        "verified": {"cmd": f"tools/verify_seed.sh seeded/{name}/patch.diff seeded/{name}/demo.py", "output": out.strip().splitlines()},
         "caught_by": None}
 old = f"{d}/meta.json"
 if os.path.exists(old):
